@@ -271,6 +271,59 @@ let handle_symtab fields =
     if orc <> "ok" then oracle_fail "symtab" hist orc
   | _ -> raise (Parse "bad symtab line")
 
+
+(* ---------- family: lex ---------- *)
+open Lexer
+
+let parse_chars (s : string) : ch list =
+  L.map (fun t -> match split_on '.' t with
+      | [c; b] -> let b = int_of_string b in
+        { cp = n_of_int (int_of_string c); xs = b land 1 <> 0; xc = b land 2 <> 0; em = b land 4 <> 0 }
+      | _ -> raise (Parse "char")) (words s)
+let base_num = function Binary -> "2" | Octal -> "8" | Decimal -> "10" | Hexadecimal -> "16"
+let tk_str (k : coq_TokenKind) : string =
+  match k with
+  | LineComment -> "LC" | BlockComment t -> "BC" ^ b01 t | Whitespace -> "WS" | Ident -> "ID"
+  | HardwareIdent -> "HW" | InvalidIdent -> "INV"
+  | OpenQasmVersionStmt (ma, mi) -> "VER" ^ b01 ma ^ b01 mi
+  | Pragma -> "PRAGMA" | Dim -> "DIM" | Annotation -> "ANN"
+  | Literal (lk, ss) ->
+    let k = match lk with
+      | LInt (b, e) -> "I" ^ base_num b ^ "." ^ b01 e
+      | LFloat (b, e) -> "F" ^ base_num b ^ "." ^ b01 e
+      | LByte t -> "Y" ^ b01 t
+      | LStr t -> "S" ^ b01 t
+      | LBitStr (t, c) -> "B" ^ b01 t ^ b01 c in
+    "L" ^ k ^ "/" ^ string_of_n ss
+  | Semi -> "Semi" | Comma -> "Comma" | Dot -> "Dot" | OpenParen -> "OpenParen"
+  | CloseParen -> "CloseParen" | OpenBrace -> "OpenBrace" | CloseBrace -> "CloseBrace"
+  | OpenBracket -> "OpenBracket" | CloseBracket -> "CloseBracket" | At -> "At" | Pound -> "Pound"
+  | Tilde -> "Tilde" | Question -> "Question" | Colon -> "Colon" | Dollar -> "Dollar" | Eq -> "Eq"
+  | Bang -> "Bang" | Lt -> "Lt" | Gt -> "Gt" | Minus -> "Minus" | And -> "And" | Or -> "Or"
+  | Plus -> "Plus" | Star -> "Star" | Slash -> "Slash" | Caret -> "Caret" | Percent -> "Percent"
+  | Unknown -> "Unknown"
+let join_n l = String.concat "," (L.map string_of_n l)
+let model_lex (cs : ch list) : string =
+  let ts = tokenize cs in
+  let lx = Lexed.lexed_of cs in
+  let kinds = match L.rev lx.Lexed.lkinds with _ :: r -> L.rev r | [] -> [] in  (* without EOF *)
+  Printf.sprintf "toks=%s;kinds=%s;starts=%s;errs=%s"
+    (String.concat "," (L.map (fun t -> tk_str t.tkind ^ ":" ^ string_of_n (tlen t)) ts))
+    (join_n kinds) (join_n lx.Lexed.lstarts) (join_n lx.Lexed.lerrors)
+let handle_lex fields =
+  match fields with
+  | [txt; impl; orc] ->
+    let cs = parse_chars txt in
+    count_case txt (L.length cs >= 2); sample "lex" txt impl;
+    let m = model_lex cs in
+    if m <> impl then mismatch "lex" txt impl m;
+    if orc <> "ok" then begin
+      if String.length orc > 11 && String.sub orc 0 11 = "FAIL KNOWN " then
+        (match split_on ' ' orc with _ :: _ :: key :: _ -> known_hit "lex" key txt | _ -> ())
+      else oracle_fail "lex" txt orc
+    end
+  | _ -> raise (Parse "bad lex line")
+
 (* ---------- main loop ---------- *)
 let () =
   Array.iter (fun a -> if a = "--nodedupe" then dedupe := false) Sys.argv;
@@ -285,6 +338,7 @@ let () =
             (match fam with
              | "ty1" | "ty2" | "ty3" -> handle_types fam fields
              | "symtab" -> handle_symtab fields
+             | "lex" -> handle_lex fields
              | _ -> raise (Parse ("unknown family " ^ fam)))
           with Parse m -> report "DRIVER-ERROR" [m; line]; incr mismatches)
        | [] -> ()
